@@ -8,7 +8,9 @@ from ..model import refstereo as R
 
 PROP = "C04"
 RULE = ("for each of the six descriptor classes: base tuple of distinct ids x ALL permutations of all positions "
-        "(centre included) x all parity pairs from the class's parity domain x placeholder patterns; library ==/hash/"
+        "(centre included) x all parity pairs from the class's parity domain x placeholder patterns (one, two, three lone pairs) x "
+        "four identifier tuples (10..; seed-derived scattered; 0..n-1 so that the falsy id 0 occurs; ids whose Python hashes collide: "
+        "-1/-2, k/k+2^61-1); library ==/hash/"
         "invert compared with the coordinate-derived symmetry oracle. A case is non-trivial when the two orderings "
         "differ; distinct = distinct (class, ordering pair, parity pair) cases")
 ASSUMPTIONS = [
@@ -32,6 +34,10 @@ def _bases(cls, seed, tier):
     rnd = random.Random(1000 + seed)
     ids = rnd.sample(range(-50, 200), n)
     out.append(tuple(ids))
+    out.append(tuple(range(n)))                # identifier 0 (falsy) inside the descriptor, ids = positions
+    # identifiers whose Python hashes coincide: hash(-1) == hash(-2), hash(k) == hash(k + 2**61 - 1)
+    P = 2 ** 61 - 1
+    out.append(tuple([-1, -2, 3, 3 + P, 0, P, 7][:n]))
     if tier == "thorough":
         out.append(tuple(reversed(range(n))))  # ids that are a permutation of the positions themselves
     return out
@@ -50,6 +56,7 @@ def _patterns(cls):
     else:
         pats += [(k,) for k in (0, 1, 4, 5)]
         pats += [c for c in itertools.combinations((0, 1, 4, 5), 2)]
+        pats += [c for c in itertools.combinations((0, 1, 4, 5), 3)]
     return pats
 
 
@@ -63,6 +70,8 @@ def items(tier, seed):
         for bi, base in enumerate(_bases(cls, seed, tier)):
             for pat in _patterns(cls):
                 if bi > 0 and len(pat) > 0 and tier == "quick" and cls == "Octahedral":
+                    continue
+                if bi == 3 and len(pat) > 1 and tier == "quick":      # (colliding ids: no / one placeholder in the quick tier)
                     continue
                 step = 720
                 for lo in range(0, nperm, step):
